@@ -125,6 +125,14 @@ class TypeInfer:
         for c in self.prog.mro(ci):
             for fn, node in self._class_fields.get(c.qualname, {}).get(name, []):
                 if fn.name == '__init__' and isinstance(node, ast.Assign):
+                    # `self.a, self.b = x, y`: the element assigned to this field
+                    sn = self._self_name(fn)
+                    for t in node.targets:
+                        if isinstance(t, (ast.Tuple, ast.List)) and isinstance(node.value, (ast.Tuple, ast.List)) and \
+                                len(t.elts) == len(node.value.elts):
+                            for tt, vv in zip(t.elts, node.value.elts):
+                                if isinstance(tt, ast.Attribute) and tt.attr == name and isinstance(tt.value, ast.Name) and tt.value.id == sn:
+                                    return fn, vv
                     return fn, node.value
         return None
 
